@@ -405,6 +405,11 @@ func c19srp(c *wk.Ctx, idx int, r *mrand.Rand, t *rngTee) {
 	srv.SetB(new(big.Int).SetBytes(rbytes(r, 256)))
 	ap := &telegram.AccountPassword{HasPassword: true, SRPB: srpsrv.Pad(srv.B.Bytes()), SRPID: 1,
 		CurrentAlgo: &telegram.PasswordKdfAlgoSHA256SHA256PBKDF2HMACSHA512iter100000SHA256ModPow{Salt1: s1, Salt2: s2, G: int32(g), P: p.Bytes()}}
+	// account.password carries secure_random, bytes of the SERVER's choosing (here: of the harness PRNG, never
+	// served by the interposed OS source): 0, 32, 256 or 512 of them. Whatever the client does with them, its
+	// ephemeral must still be explained by what the OS source served
+	ap.SecureRandom = rbytes(r, []int{256, 512, 256, 0, 32, 256, 1024, 0}[idx%8])
+	c.Count(fmt.Sprintf("srp.secure_random_len_%d", len(ap.SecureRandom)), 1)
 	var res telegram.InputCheckPasswordSRP
 	var err error
 	pan, pm, _ := wk.Guard(func() { res, err = telegram.GetInputCheckPassword("pw", ap) })
